@@ -473,6 +473,7 @@ func emitArg(repo string, p *packages.Package, file *ast.File, fd *ast.FuncDecl,
 			conds []string
 		}
 		var alts []alt
+		var sliceLits []*ast.CompositeLit
 		ast.Inspect(fd.Body, func(nd ast.Node) bool {
 			as, ok := nd.(*ast.AssignStmt)
 			if !ok {
@@ -487,6 +488,17 @@ func emitArg(repo string, p *packages.Package, file *ast.File, fd *ast.FuncDecl,
 						if fl, ok := routeFields(info, cl); ok {
 							fields = fl
 							litPos = cl.Pos()
+						} else {
+							// a slice of routes held in a variable
+							sliceLits = append(sliceLits, cl)
+						}
+					} else if call, ok := as.Rhs[i].(*ast.CallExpr); ok && render(call.Fun) == "append" && len(call.Args) >= 1 {
+						for _, a2 := range call.Args[1:] {
+							if cl, ok := a2.(*ast.CompositeLit); ok {
+								sliceLits = append(sliceLits, cl)
+							} else {
+								problem("%s: route slice %s extended by a non-literal", pos(repo, as.Pos()), a.Name)
+							}
 						}
 					} else {
 						problem("%s: route variable %s assigned from a non-literal", pos(repo, as.Pos()), a.Name)
@@ -504,6 +516,12 @@ func emitArg(repo string, p *packages.Package, file *ast.File, fd *ast.FuncDecl,
 			}
 			return true
 		})
+		if fields == nil && len(sliceLits) > 0 {
+			for _, cl := range sliceLits {
+				emitArg(repo, p, file, fd, cl, append(append([]string{}, base...), condsOf(file, cl)...))
+			}
+			return
+		}
 		if fields == nil {
 			problem("%s: no literal definition of route variable %s found", pos(repo, a.Pos()), a.Name)
 			return
@@ -710,6 +728,44 @@ func scanServeHTTP(repo string, p *packages.Package) {
 	})
 	// top-level statements: exactly the if-chain may dispatch
 	for _, st := range fd.Body.List {
+		if sw, ok := st.(*ast.SwitchStmt); ok && sw.Tag == nil && sw.Init == nil {
+			hasDefault := false
+			for _, c := range sw.Body.List {
+				cc := c.(*ast.CaseClause)
+				callee := ""
+				if len(cc.Body) == 1 {
+					if es, ok := cc.Body[0].(*ast.ExprStmt); ok {
+						if call, ok := es.X.(*ast.CallExpr); ok {
+							callee = render(call.Fun)
+						}
+					}
+				}
+				if cc.List == nil {
+					hasDefault = true
+					if callee == "h.mux.ServeHTTP" {
+						out.ElseIsMux = true
+					} else {
+						out.Prefixes = append(out.Prefixes, Prefix{Kind: "unknown", Callee: render(cc)})
+					}
+					continue
+				}
+				for _, e := range cc.List {
+					pf := parsePrefixCond(p.TypesInfo, e)
+					pf.Callee = callee
+					if callee == "" {
+						pf.Kind = "unknown"
+						pf.Callee = render(cc)
+					}
+					if callee != "h.mux.ServeHTTP" {
+						out.Prefixes = append(out.Prefixes, pf)
+					}
+				}
+			}
+			if !hasDefault {
+				out.Prefixes = append(out.Prefixes, Prefix{Kind: "unknown", Callee: "switch without default"})
+			}
+			continue
+		}
 		ifs, ok := st.(*ast.IfStmt)
 		if !ok {
 			// any other top-level statement that passes both w and r to something is a dispatch we do not understand
